@@ -327,8 +327,15 @@ impl<const N: usize, I> ARemapper for BRemapperImpl<'_, '_, N, I> {
 	}
 }
 
-impl<'i, const N: usize, I: SuperClassProvider> BRemapper for BRemapperImpl<'_, 'i, N, I> {
-	fn map_field_fail(&self, owner_name: &ObjClassNameSlice, field_name: &FieldNameSlice, field_desc: &FieldDescriptorSlice) -> Result<Option<FieldNameAndDesc>> {
+impl<'i, const N: usize, I: SuperClassProvider> BRemapperImpl<'_, 'i, N, I> {
+	/// `path` holds the classes whose super types are being searched right now. Meeting one of them again means
+	/// that the inheritance information is cyclic; that's an error (the search would never end otherwise).
+	fn map_field_fail_on_path<'p>(&'p self, path: &mut Vec<&'p ObjClassNameSlice>, owner_name: &'p ObjClassNameSlice,
+			field_name: &FieldNameSlice, field_desc: &FieldDescriptorSlice) -> Result<Option<FieldNameAndDesc>> {
+		if path.contains(&owner_name) {
+			bail!("cyclic inheritance: class {owner_name:?} is a super type of itself");
+		}
+
 		if let Some(class) = self.classes.get(owner_name) {
 			let key = TupleReq(field_name, field_desc);
 			if let Some(&TupleKey(name, ref desc)) = class.fields.get(&key) {
@@ -340,18 +347,25 @@ impl<'i, const N: usize, I: SuperClassProvider> BRemapper for BRemapperImpl<'_, 
 
 		// the super types are searched as well when the owner itself has no mapping
 		if let Some(super_classes) = self.inheritance.get_super_classes(owner_name)? {
+			path.push(owner_name);
 			for super_class in super_classes {
-				if let Some(remapped) = self.map_field_fail(super_class, field_name, field_desc)? {
+				if let Some(remapped) = self.map_field_fail_on_path(path, super_class, field_name, field_desc)? {
 					return Ok(Some(remapped));
 				}
 			}
+			path.pop();
 		}
 
 		Ok(None)
 	}
 
-	fn map_method_fail(&self, owner_name: &ObjClassNameSlice, method_name: &MethodNameSlice, method_desc: &MethodDescriptorSlice)
-			-> Result<Option<MethodNameAndDesc>> {
+	/// See [`Self::map_field_fail_on_path`].
+	fn map_method_fail_on_path<'p>(&'p self, path: &mut Vec<&'p ObjClassNameSlice>, owner_name: &'p ObjClassNameSlice,
+			method_name: &MethodNameSlice, method_desc: &MethodDescriptorSlice) -> Result<Option<MethodNameAndDesc>> {
+		if path.contains(&owner_name) {
+			bail!("cyclic inheritance: class {owner_name:?} is a super type of itself");
+		}
+
 		if let Some(class) = self.classes.get(owner_name) {
 			let key = TupleReq(method_name, method_desc);
 			if let Some(&TupleKey(name, ref desc)) = class.methods.get(&key) {
@@ -363,14 +377,27 @@ impl<'i, const N: usize, I: SuperClassProvider> BRemapper for BRemapperImpl<'_, 
 
 		// the super types are searched as well when the owner itself has no mapping
 		if let Some(super_classes) = self.inheritance.get_super_classes(owner_name)? {
+			path.push(owner_name);
 			for super_class in super_classes {
-				if let Some(remapped) = self.map_method_fail(super_class, method_name, method_desc)? {
+				if let Some(remapped) = self.map_method_fail_on_path(path, super_class, method_name, method_desc)? {
 					return Ok(Some(remapped));
 				}
 			}
+			path.pop();
 		}
 
 		Ok(None)
+	}
+}
+
+impl<'i, const N: usize, I: SuperClassProvider> BRemapper for BRemapperImpl<'_, 'i, N, I> {
+	fn map_field_fail(&self, owner_name: &ObjClassNameSlice, field_name: &FieldNameSlice, field_desc: &FieldDescriptorSlice) -> Result<Option<FieldNameAndDesc>> {
+		self.map_field_fail_on_path(&mut Vec::new(), owner_name, field_name, field_desc)
+	}
+
+	fn map_method_fail(&self, owner_name: &ObjClassNameSlice, method_name: &MethodNameSlice, method_desc: &MethodDescriptorSlice)
+			-> Result<Option<MethodNameAndDesc>> {
+		self.map_method_fail_on_path(&mut Vec::new(), owner_name, method_name, method_desc)
 	}
 }
 
